@@ -7,6 +7,7 @@ mod ops_checker;
 mod ops_claim;
 mod ops_fetch;
 mod ops_crash;
+mod ops_migrate;
 
 use std::io::{BufRead, Write};
 
@@ -42,6 +43,9 @@ fn serve() {
         let fields: Vec<String> = it.map(util::unhex).collect();
         let res = std::panic::catch_unwind(std::panic::AssertUnwindSafe(|| {
             if let Some(r) = ops_cache::dispatch(&mut cst, &op, &fields) {
+                return r;
+            }
+            if let Some(r) = ops_migrate::dispatch(&mut cst, &op, &fields) {
                 return r;
             }
             if let Some(r) = ops_crash::dispatch(&mut cst, &op, &fields) {
